@@ -40,8 +40,7 @@ Definition rotor_seed (slot slice : N) : list N := be8 slot ++ be8 slice ++ repe
 Definition turbine_tag : list N := [65; 76; 80; 69; 78; 71; 76; 79; 87; 84; 85; 82; 66; 73; 78; 69].
 Definition turbine_seed (slot shred : N) : list N := turbine_tag ++ be8 slot ++ be8 shred.
 
-(* StdRng::from_seed(seed): ChaCha12 keystream words; `blocks` bounds how much of it is materialised *)
-Definition stdrng (blocks : nat) (seed : list N) : stream := stdrng_words seed blocks.
+(* `stdrng` (StdRng::from_seed = ChaCha12 keystream words) is defined in Model/Sampling.v *)
 
 (* EpochInfo::leader: one leader per window, round robin *)
 Definition leader_of (n slot : N) : N := (slot / SLOTS_PER_WINDOW) mod n.
@@ -66,9 +65,13 @@ Section Rotor.
     end.
 End Rotor.
 
-(* Rotor::new / Rotor::new_fa1 choose the sampler *)
-Definition rotor_new (stakes : list N) : cres sampler := construct (StStake TOTAL_SHREDS) stakes [].
-Definition rotor_new_fa1 (stakes : list N) (order : list N) : cres sampler := construct (StFA1Part TOTAL_SHREDS) stakes order.
+(* Rotor::new / Rotor::new_fa1 choose the sampler.  Rotor::new never depended on the code version.
+   Rotor::new_fa1: in the pinned tree the sampler depended on the thread-RNG order of PartitionSampler::new
+   (`rotor_new_fa1_pinned`); now it is a function of the stakes (`rotor_new_fa1`). *)
+Definition rotor_new (stakes : list N) : cres sampler := construct_current (StStake TOTAL_SHREDS) stakes.
+Definition rotor_new_fa1_pinned (stakes : list N) (order : list N) : cres sampler :=
+  construct Pinned (StFA1Part TOTAL_SHREDS) stakes order.
+Definition rotor_new_fa1 (stakes : list N) : cres sampler := construct_current (StFA1Part TOTAL_SHREDS) stakes.
 
 Fixpoint seqN (start : N) (len : nat) : list N :=
   match len with O => [] | S l => start :: seqN (start + 1) l end.
